@@ -352,7 +352,7 @@ def trace_cfg(nfiles, protocol, generic, invariants):
         "CONSTANT Generic = %s\nCHECK_DEADLOCK FALSE\nCONSTRAINT Consumed\nPOSTCONDITION TraceAccepted\n" \
         "INVARIANT ReportState\n" % (nfiles, protocol, "TRUE" if generic else "FALSE")
     for i in invariants:
-        s += "INVARIANT %s\n" % i
+        s += "INVARIANT %s\n" % {"Fresh": "ReportFresh", "CrashSafe": "ReportCrashSafe"}.get(i, i)
     return s
 
 
@@ -384,7 +384,7 @@ def validate_trace(lines, nfiles, protocol, generic, invariants, timeout=900):
     rej = [o for t, o in r.prints if t == "REJECT"]
     if not acc and not rej:
         raise ToolError("TraceBuild gave no verdict:\n" + r.out[-1500:])
-    viol = []
+    viol = [(o["inv"], int(o["l"])) for t, o in r.prints if t == "BAD"]
     for v in r.violations:
         st = trace_last_state(v["trace"])
         try:
